@@ -5,10 +5,13 @@
 //! `--cfg koge29_verif`, and writes one ndjson event per linearisation point.  There is no oracle
 //! here: all expected values are computed by TLC from the specification (spec/TraceH8.tla).
 mod cases;
+mod cost;
 mod forms;
 mod gen;
 mod machine;
+mod mes;
 mod rng;
+mod sweep;
 
 use anyhow::{anyhow, Result};
 use std::collections::HashMap;
@@ -53,6 +56,10 @@ fn main() {
     let r = match args.cmd.as_str() {
         "step-cases" => cases::run_step_cases(&args),
         "replay" => cases::run_replay(&args),
+        "decode-sweep" => sweep::run_sweep(&args, false),
+        "panic-sweep" => sweep::run_sweep(&args, true),
+        "mes-cases" => mes::run_mes(&args),
+        "cost-table" => cost::run_cost(&args),
         _ => Err(anyhow!("unknown command {}", args.cmd)),
     };
     if let Err(e) = r {
